@@ -126,6 +126,7 @@ type World struct {
 	dsInf   *informer.DaemonSetController
 
 	uidSeq int
+	everNC, everNode map[string]bool // names ever delivered to the informers (to deliver their deletion later)
 }
 
 type Recorder struct {
@@ -279,9 +280,13 @@ func (w *World) SyncCluster() {
 	}
 	ncs := &v1.NodeClaimList{}
 	must(w.Raw.List(ctx, ncs))
+	if w.everNC == nil {
+		w.everNC, w.everNode = map[string]bool{}, map[string]bool{}
+	}
 	seenNC := map[string]bool{}
 	for i := range ncs.Items {
 		seenNC[ncs.Items[i].Name] = true
+		w.everNC[ncs.Items[i].Name] = true
 		must2(w.ncInf.Reconcile(ctx, req(&ncs.Items[i])))
 	}
 	nodes := &corev1.NodeList{}
@@ -289,6 +294,7 @@ func (w *World) SyncCluster() {
 	seenNode := map[string]bool{}
 	for i := range nodes.Items {
 		seenNode[nodes.Items[i].Name] = true
+		w.everNode[nodes.Items[i].Name] = true
 		must2(w.nodeInf.Reconcile(ctx, req(&nodes.Items[i])))
 	}
 	// deliver deletions for anything the cache still holds
@@ -299,6 +305,18 @@ func (w *World) SyncCluster() {
 		}
 		if n.Node != nil && !seenNode[n.Node.Name] {
 			goneNode = append(goneNode, n.Node.Name)
+		}
+	}
+	for n := range w.everNC {
+		if !seenNC[n] {
+			goneNC = append(goneNC, n)
+			delete(w.everNC, n)
+		}
+	}
+	for n := range w.everNode {
+		if !seenNode[n] {
+			goneNode = append(goneNode, n)
+			delete(w.everNode, n)
 		}
 	}
 	sort.Strings(goneNC)
@@ -461,3 +479,6 @@ func (w *World) WriteCalls() []string {
 	}
 	return out
 }
+
+// RebindInformers points the informer reconcilers at the world's current Cluster (after a simulated restart).
+func (w *World) RebindInformers() { w.newInformers() }
